@@ -433,8 +433,9 @@ class Ctx(object):
         ev = {"property_id": self.prop, "tier": self.tier, "seed": self.seed, "level": self.level,
               "coverage": cov, "assumptions": self.assumptions, "wall_s": round(wall, 2),
               "violations": len(self.violations)}
-        os.makedirs(os.path.join(OUT, "evidence"), exist_ok=True)
-        with open(os.path.join(OUT, "evidence", self.prop + ".json"), "w") as fh:
+        edir = os.path.join(OUT, "evidence", "growth") if self.prop.startswith("G") else os.path.join(OUT, "evidence")
+        os.makedirs(edir, exist_ok=True)
+        with open(os.path.join(edir, self.prop + ".json"), "w") as fh:
             json.dump(ev, fh, indent=1, sort_keys=True, default=str)
         for fid, n in sorted(self.known_hits.items()):
             f = [x for x in self._known if x["id"] == fid][0]
